@@ -61,10 +61,134 @@ let hex_of_bytes (l : z list) : string =
 
 let words s = List.filter (fun w -> w <> "") (String.split_on_char ' ' s)
 
+
+(* ---------- events <-> tokens (same format as harness/events.go) ---------- *)
+let nkinds = [ ("i8", KInt8); ("i16", KInt16); ("i32", KInt32); ("i64", KInt64); ("i", KInt); ("by", KByte);
+               ("u8", KUint8); ("u16", KUint16); ("u32", KUint32); ("u64", KUint64); ("u", KUint);
+               ("f32", KFloat32); ("f64", KFloat64) ]
+let nkind_name k = fst (List.find (fun (_, k') -> k' = k) nkinds)
+
+let btypes = [| BAny; BByte; BString; BBool; BZero; BInt; BInt8; BInt16; BInt32; BInt64; BUint; BUint8; BUint16;
+                BUint32; BUint64; BFloat32; BFloat64 |]
+let btype_of_int i = btypes.(i)
+let int_of_btype b = int_of_z (btype_code b)
+
+let starts_with s p = String.length s >= String.length p && String.sub s 0 (String.length p) = p
+let after s n = String.sub s n (String.length s - n)
+
+let scalar_of_tok (t : string) : scalar =
+  if t = "n" then SNil
+  else if t = "t" then SBool true
+  else if t = "f" then SBool false
+  else if starts_with t "s:" then SStr (bytes_of_hex (after t 2))
+  else
+    let i = String.index t ':' in
+    let name = String.sub t 0 i and v = after t (i + 1) in
+    SNum (List.assoc name nkinds, z_of_string v)
+
+let tok_of_scalar (s : scalar) : string =
+  match s with
+  | SNil -> "n"
+  | SBool true -> "t"
+  | SBool false -> "f"
+  | SStr b -> "s:" ^ hex_of_bytes b
+  | SNum (k, z) -> nkind_name k ^ ":" ^ string_of_z z
+
+let split_nonempty c s = if s = "" then [] else String.split_on_char c s
+
+let event_of_tok (t : string) : event =
+  if t = "]" then EArrEnd
+  else if t = "}" then EObjEnd
+  else if starts_with t "S:" then EStrRef (bytes_of_hex (after t 2))
+  else if starts_with t "k:" then EKey (bytes_of_hex (after t 2))
+  else if starts_with t "K:" then EKeyRef (bytes_of_hex (after t 2))
+  else if starts_with t "[:" || starts_with t "{:" then begin
+    match String.split_on_char ':' (after t 2) with
+    | [ n; bt ] ->
+        if t.[0] = '[' then EArrStart (z_of_string n, btype_of_int (int_of_string bt))
+        else EObjStart (z_of_string n, btype_of_int (int_of_string bt))
+    | _ -> failwith ("bad start token " ^ t)
+  end
+  else if starts_with t "X[:" then begin
+    let r = after t 3 in
+    let i = String.index r ':' in
+    let bt = btype_of_int (int_of_string (String.sub r 0 i)) in
+    EXArr (bt, List.map scalar_of_tok (split_nonempty ',' (after r (i + 1))))
+  end
+  else if starts_with t "X{:" then begin
+    let r = after t 3 in
+    let i = String.index r ':' in
+    let bt = btype_of_int (int_of_string (String.sub r 0 i)) in
+    EXObj
+      ( bt,
+        List.map
+          (fun kv ->
+            let j = String.index kv '=' in
+            (bytes_of_hex (String.sub kv 0 j), scalar_of_tok (after kv (j + 1))))
+          (split_nonempty ',' (after r (i + 1))) )
+  end
+  else EVal (scalar_of_tok t)
+
+let tok_of_event (e : event) : string =
+  match e with
+  | EVal s -> tok_of_scalar s
+  | EStrRef b -> "S:" ^ hex_of_bytes b
+  | EKey b -> "k:" ^ hex_of_bytes b
+  | EKeyRef b -> "K:" ^ hex_of_bytes b
+  | EArrStart (n, bt) -> Printf.sprintf "[:%s:%d" (string_of_z n) (int_of_btype bt)
+  | EArrEnd -> "]"
+  | EObjStart (n, bt) -> Printf.sprintf "{:%s:%d" (string_of_z n) (int_of_btype bt)
+  | EObjEnd -> "}"
+  | EXArr (bt, es) -> Printf.sprintf "X[:%d:%s" (int_of_btype bt) (String.concat "," (List.map tok_of_scalar es))
+  | EXObj (bt, ms) ->
+      Printf.sprintf "X{:%d:%s" (int_of_btype bt)
+        (String.concat "," (List.map (fun (k, v) -> hex_of_bytes k ^ "=" ^ tok_of_scalar v) ms))
+
+let events_of_toks (ts : string list) : event list =
+  List.map event_of_tok (List.filter (fun t -> t <> ".") ts)
+
+let toks_of_events (evs : event list) : string =
+  if evs = [] then "." else String.concat " " (List.map tok_of_event evs)
+
+let chunks_of_toks ts = List.map bytes_of_hex (List.filter (fun t -> t <> ".") ts)
+let toks_of_chunks cs = if cs = [] then "." else String.concat " " (List.map hex_of_bytes cs)
+
+let nat_of_int (i : int) : nat =
+  let rec go i acc = if i <= 0 then acc else go (i - 1) (S acc) in
+  go i O
+let rec int_of_nat (n : nat) : int = match n with O -> 0 | S m -> 1 + int_of_nat m
+
+let fail_opt (i : int) : nat option = if i < 0 then None else Some (nat_of_int i)
+
+(* split "a ## b" *)
+let split_flags (obs : string) : string * string =
+  match Str.bounded_split_delim (Str.regexp_string " ## ") obs 2 with
+  | [ a; b ] -> (a, b)
+  | _ -> (obs, "")
+
+(* split a token list at the first occurrence of a marker token *)
+let rec split_at (m : string) (ts : string list) : string list * string list =
+  match ts with
+  | [] -> ([], [])
+  | t :: r -> if t = m then ([], r) else let a, b = split_at m r in (t :: a, b)
+
+let strip_depth (obs : string) : string =
+  match Str.bounded_split_delim (Str.regexp_string " D ") obs 2 with a :: _ -> a | [] -> obs
+
+(* merge by-value and by-reference delivery for value comparisons *)
+let tree_of_events (evs : event list) : tree option = stream_tree evs
+
+let rec take_trees (evs : event list) (fuel : int) : tree list option =
+  if evs = [] then Some []
+  else if fuel = 0 then None
+  else
+    match parse_tree (nat_of_int (List.length evs + 1)) evs with
+    | Some (t, rest) -> ( match take_trees rest (fuel - 1) with Some ts -> Some (t :: ts) | None -> None)
+    | None -> None
+
 (* ---------- kinds ---------- *)
 (* each handler returns (model observation, oracle failures) *)
 type verdict = { model : string; oracle : (string * string) list }
-
 let lru_case (input : string) (_obs : string) : verdict =
   match words input with
   | cap :: keys ->
@@ -94,7 +218,209 @@ let lru_case (input : string) (_obs : string) : verdict =
       { model; oracle }
   | [] -> failwith "lru: empty input"
 
-let handlers : (string * (string -> string -> verdict)) list = [ ("lru", lru_case) ]
+
+(* ---- CBOR encoder ---- *)
+let cborenc_case (input : string) (obs : string) : verdict =
+  match Str.bounded_split_delim (Str.regexp_string "|") input 2 with
+  | [ f; toks ] ->
+      let failat = int_of_string (String.trim f) in
+      let evs = events_of_toks (words toks) in
+      let e, idx = cbor_run (cenc0 (fail_opt failat)) evs O in
+      let model =
+        Printf.sprintf "W %s E %s D %d" (toks_of_chunks (w_chunks e.ce_w))
+          (match idx with None -> "-" | Some i -> string_of_int (int_of_nat i))
+          (List.length e.ce_len.ls_stack)
+      in
+      let oracle = ref [] in
+      (* direct oracles on the implementation's output *)
+      (match words obs with
+      | "W" :: rest ->
+          let chunks, rest' = split_at "E" rest in
+          let eidx = match rest' with x :: _ -> x | [] -> "?" in
+          let out = List.concat (chunks_of_toks chunks) in
+          if failat < 0 then begin
+            (* C07: an independent decoder reads back the value of the stream *)
+            match take_trees evs 64 with
+            | Some trees when List.for_all wf_tree trees ->
+                if eidx <> "-" then oracle := ("C07", "encoder refused a well-formed stream at event " ^ eidx) :: !oracle
+                else begin
+                  let want = List.map (fun t -> cv (value_of t)) trees in
+                  match cbor_decode_all (nat_of_int (List.length trees + 1)) out with
+                  | Some got when List.length got = List.length want && List.for_all2 cvalue_eqb got want -> ()
+                  | _ -> oracle := ("C07", "reference decoder does not read back the stream's value from " ^ hex_of_bytes out) :: !oracle
+                end
+            | _ -> ()
+          end
+          else begin
+            (* C16: a failing writer must surface as the injected error no later than the last event *)
+            let nwrites = List.length chunks in
+            if nwrites > failat then begin
+              if eidx = "-" then oracle := ("C16", "write #" ^ string_of_int failat ^ " failed but every call returned nil") :: !oracle
+              else if String.contains eidx '!' then oracle := ("C16", "returned error is not the writer's error") :: !oracle
+            end
+          end
+      | [ "PANIC" ] | [ "HANG" ] -> oracle := ("C07", "encoder crashed: " ^ obs) :: !oracle
+      | _ -> ());
+      { model; oracle = !oracle }
+  | _ -> failwith "cborenc: bad input"
+
+(* ---- CBOR parser ---- *)
+let verdict_of_err (e : z) : string =
+  let i = int_of_z e in
+  if i = -1 then "ok" else if i = 99 then "inj" else if i = 8 then "eof" else "err"
+
+let cbor_obs (r : (event list * z) res) : string =
+  match r with
+  | Ok (evs, err) -> Printf.sprintf "EV %s R %s" (toks_of_events evs) (verdict_of_err err)
+  | Panic _ -> "PANIC"
+  | OutOfFuel -> "HANG"
+  | Err _ -> "MODELERR"
+
+(* verdict comparison for the binary parsers: the model's PANIC/HANG must match the
+   implementation's; events are compared literally *)
+let cbor_ref_oracle (doc : z list) (evs : event list) (verdict : string) : (string * string) list =
+  let o = ref [] in
+  (if verdict = "PANIC" || verdict = "HANG" then o := ("C03", "parser " ^ verdict) :: !o);
+  (* walk the stream with the reference decoder *)
+  let rec walk b acc n =
+    if b = [] then `Values (List.rev acc)
+    else if n = 0 then `Stop
+    else match cbor_decode b with
+      | RValue (v, rest) -> walk rest (v :: acc) (n - 1)
+      | RUnsupported -> `Unsupported
+      | RTruncated -> `Truncated
+      | RMalformed -> `Malformed
+  in
+  (match walk doc [] 64 with
+  | `Values want ->
+      if verdict <> "ok" then o := ("C05", "well-formed supported item refused: " ^ verdict) :: !o
+      else begin
+        match take_trees evs 64 with
+        | Some trees ->
+            let got = List.map (fun t -> cv (value_of t)) trees in
+            if not (List.length got = List.length want && List.for_all2 cvalue_eqb got want) then
+              o := ("C05", "reported value differs from the RFC 7049 value") :: !o;
+            if not (List.for_all wf_tree trees) then o := ("C09", "accepted input produced an ill-formed event stream") :: !o
+        | None -> o := ("C09", "accepted input produced an unbalanced event stream") :: !o
+      end
+  | `Unsupported -> if verdict = "ok" then o := ("C05", "item outside the subset accepted") :: !o
+  | `Truncated -> if verdict = "ok" then o := ("C03", "input ending inside a value accepted") :: !o
+  | `Malformed ->
+      if verdict = "ok" then begin
+        match take_trees evs 64 with
+        | Some trees when List.for_all wf_tree trees -> ()
+        | _ -> o := ("C09", "accepted input produced an ill-formed event stream") :: !o
+      end
+  | `Stop -> ());
+  !o
+
+let cborparse_case (input : string) (obs0 : string) : verdict =
+  let obs, flags = split_flags obs0 in
+  match words input with
+  | mode :: vfail :: chunks ->
+      let vfail = int_of_string vfail in
+      let chunks = chunks_of_toks chunks in
+      let r =
+        if mode = "P" || mode = "S" then run_parse (fail_opt vfail) (List.concat chunks)
+        else if mode = "R" then run_chunks (fail_opt vfail) (List.filter (fun c -> c <> []) chunks)
+        else run_chunks (fail_opt vfail) chunks
+      in
+      let model = cbor_obs r in
+      let oracle = ref [] in
+      let impl = strip_depth obs in
+      (match words impl with
+      | "EV" :: rest ->
+          let toks, rest' = split_at "R" rest in
+          let verdict = match rest' with v :: _ -> v | [] -> "?" in
+          let evs = events_of_toks toks in
+          if vfail < 0 then oracle := cbor_ref_oracle (List.concat chunks) evs verdict
+          else begin
+            (* C16: visitor error at call #vfail is returned unchanged, no further event *)
+            let n = List.length evs in
+            if n > vfail then begin
+              if n <> vfail + 1 then oracle := ("C16", "events delivered after the visitor failed") :: !oracle;
+              if verdict <> "inj" then oracle := ("C16", "visitor error not returned unchanged: " ^ verdict) :: !oracle
+            end
+          end
+      | _ -> oracle := [ ("C03", "parser crashed: " ^ impl) ]);
+      (if flags <> "" then
+         match words flags with p :: m -> oracle := (p, "chunked run differs from whole-buffer run: " ^ String.concat " " m) :: !oracle | [] -> ());
+      (* the depth part of the observation is checked by C17 only through the oracle below *)
+      (match Str.bounded_split_delim (Str.regexp_string " D ") obs 2 with
+      | [ _; d ] ->
+          let okrun = (match words impl with "EV" :: rest -> (match snd (split_at "R" rest) with "ok" :: _ -> true | _ -> false) | _ -> false) in
+          if okrun && mode <> "R" && d <> "0 0 0" then oracle := ("C17", "stacks not idle after a complete document: " ^ d) :: !oracle
+      | _ -> ());
+      { model = (match Str.bounded_split_delim (Str.regexp_string " D ") obs 2 with [ _; d ] -> model ^ " D " ^ d | _ -> model); oracle = !oracle }
+  | _ -> failwith "cborparse: bad input"
+
+(* ---- CBOR decoder ---- *)
+let script_of_toks ts =
+  List.map
+    (fun t ->
+      let n = String.length t in
+      if n >= 2 && String.sub t (n - 2) 2 = "+e" then (bytes_of_hex (String.sub t 0 (n - 2)), z_of_int 8)
+      else (bytes_of_hex t, Z0))
+    (List.filter (fun t -> t <> ".") ts)
+
+let cbordec_case (input : string) (obs : string) : verdict =
+  match words input with
+  | kind :: _bufsize :: nexts :: script ->
+      let nexts = int_of_string nexts in
+      let script = script_of_toks script in
+      let d0 =
+        if kind = "B" then { d_p = cparser0; d_buf = List.concat (List.map fst script); d_script = []; d_bytesdec = true }
+        else { d_p = cparser0; d_buf = []; d_script = script; d_bytesdec = false }
+      in
+      let total = List.fold_left (fun a (b, _) -> a + List.length b) 0 script in
+      let b = Buffer.create 256 in
+      let rec go d i =
+        if i < nexts then begin
+          match dec_next (nat_of_int (2 * total + List.length script + 8)) d (sink0 None) with
+          | Ok ((d', s), err) ->
+              Buffer.add_string b (Printf.sprintf "EV %s R %s ; " (toks_of_events (s_log s)) (verdict_of_err err));
+              if int_of_z err = -1 then go d' (i + 1)
+          | Panic _ -> Buffer.add_string b "EV . R PANIC ; "
+          | OutOfFuel -> Buffer.add_string b "EV . R HANG ; "
+          | Err _ -> Buffer.add_string b "EV . R MODELERR ; "
+        end
+      in
+      go d0 0;
+      let model = String.trim (Buffer.contents b) in
+      (* C18 oracle: k complete items => k successful Next with exactly one value each, then eof;
+         a stream ending inside an item => an error that is not eof *)
+      let doc = List.concat (List.map fst script) in
+      let oracle = ref [] in
+      let rec walk b acc = if b = [] then `Values (List.rev acc) else match cbor_decode b with
+        | RValue (v, rest) -> walk rest (v :: acc) | RTruncated -> `Truncated (List.rev acc) | _ -> `Other in
+      let calls = List.filter (fun s -> String.trim s <> "") (Str.split (Str.regexp_string " ; ") (obs ^ " ")) in
+      let parse_call c = match words c with "EV" :: rest -> let toks, r = split_at "R" rest in (events_of_toks toks, (match r with v :: _ -> v | [] -> "?")) | _ -> ([], "?") in
+      let calls = List.map parse_call calls in
+      (if List.exists (fun (_, v) -> v = "PANIC" || v = "HANG") calls then oracle := ("C03", "decoder crashed or hung") :: !oracle);
+      (match walk doc [] with
+      | `Values want ->
+          let k = List.length want in
+          if nexts > k then begin
+            if List.length calls <> k + 1 then oracle := ("C18", Printf.sprintf "%d values but %d calls made progress" k (List.length calls)) :: !oracle
+            else List.iteri (fun i (evs, v) ->
+                if i < k then begin
+                  if v <> "ok" then oracle := ("C18", Printf.sprintf "Next #%d returned %s" i v) :: !oracle
+                  else match stream_tree evs with
+                    | Some t when cvalue_eqb (cv (value_of t)) (List.nth want i) -> ()
+                    | _ -> oracle := ("C18", Printf.sprintf "Next #%d did not deliver exactly value #%d" i i) :: !oracle
+                end else if v <> "eof" then oracle := ("C18", "no io.EOF after the last value: " ^ v) :: !oracle) calls
+          end
+      | `Truncated _ ->
+          (match List.rev calls with
+           | (_, v) :: _ when v = "eof" || v = "ok" -> if List.length calls <= nexts && v = "eof" then oracle := ("C18", "stream ending inside a value reported as clean io.EOF") :: !oracle
+           | _ -> ())
+      | `Other -> ());
+      { model; oracle = !oracle }
+  | _ -> failwith "cbordec: bad input"
+
+let handlers : (string * (string -> string -> verdict)) list =
+  [ ("lru", lru_case); ("cborenc", cborenc_case); ("cborparse", cborparse_case); ("cbordec", cbordec_case) ]
+
 
 let () =
   let lineno = ref 0 in
@@ -110,7 +436,7 @@ let () =
               match h input obs with
               | v ->
                   let ok = ref true in
-                  if v.model <> obs then begin
+                  if v.model <> fst (split_flags obs) then begin
                     ok := false;
                     Printf.printf "CORR %d %s model=%s\n" !lineno kind v.model
                   end;
